@@ -4,7 +4,7 @@ import json, os, sys, time
 from .frontend import (AnalysisBroken, QUICK_CONFIGS, THOROUGH_CONFIGS, load_facts, VERIF, REPO)
 from .core.program import Program, fmt_atom, fmt_term
 from .core.callgraph import CallGraph
-from .core.inline import inline_all, keep_names
+from .core.inline import inline_all, keep_names, lower_selects
 
 KNOWN_FILE = os.path.join(VERIF, "known_findings.json")
 EVIDENCE_DIR = os.environ.get("CJET_EVIDENCE_DIR") or os.path.join(VERIF, "evidence")
@@ -23,6 +23,7 @@ class Config:
         self.name = name
         facts = load_facts(name)
         if os.environ.get("CJET_SA_NO_INLINE") != "1":
+            lower_selects(facts)
             self.inlined = inline_all(facts, keep_names(VERIF))
         else:
             self.inlined = []
